@@ -368,8 +368,16 @@ func genActScripts(r *fw.Rng, n int, withClose bool) []string {
 					}
 				}
 			case 2, 3:
-				if len(open) > 0 && live {
-					i := r.Intn(len(open))
+				// answers go to commands with the long time-out only: answering a 150 ms command races its timer,
+				// and which of the two wins depends on the machine's load (a false alarm seen in a seed sweep)
+				var longs []int
+				for i, o := range open {
+					if strings.HasSuffix(o, "L") {
+						longs = append(longs, i)
+					}
+				}
+				if len(longs) > 0 && live {
+					i := longs[r.Intn(len(longs))]
 					toks = append(toks, "R"+open[i][:1])
 					open = append(open[:i], open[i+1:]...)
 				}
